@@ -106,7 +106,14 @@ def encode_to_dict(obj: Any, refs: Dict[int, Any]):
         elif isinstance(obj, Action):
             # The context and the arguments of an action can hold any value (e.g. a set returned
             # by the action), so they are encoded as well.
-            value = {"__type": "Action", "value": encode_to_dict(obj.to_dict(), refs)}
+            # (field by field: the dict returned by `to_dict` is a temporary object and must not
+            # be registered as a reference)
+            value = {
+                "__type": "Action",
+                "value": {
+                    k: encode_to_dict(v, refs) for k, v in obj.to_dict().items()
+                },
+            }
         elif isinstance(obj, datetime):
             value = {"__type": "datetime", "value": obj.isoformat()}
         elif isinstance(obj, Enum):
